@@ -152,10 +152,19 @@ pub fn json_str(val: impl fmt::Display) -> impl fmt::Display {
 
     impl fmt::Write for WriteJsonStr<'_, '_> {
         fn write_str(&mut self, mut s: &str) -> fmt::Result {
-            while let Some(idx) = s.find(['"', '\\']) {
+            while let Some(idx) = s.find(|ch: char| {
+                ch == '"' || ch == '\\' || ch < '\u{20}'
+            }) {
                 self.0.write_str(&s[..idx])?;
-                self.0.write_str("\\")?;
-                write!(self.0, "{}", char::from(s.as_bytes()[idx]))?;
+                let ch = s.as_bytes()[idx];
+                if ch < 0x20 {
+                    // Control characters must not appear literally.
+                    write!(self.0, "\\u{ch:04x}")?;
+                }
+                else {
+                    self.0.write_str("\\")?;
+                    write!(self.0, "{}", char::from(ch))?;
+                }
                 s = &s[idx + 1..];
             }
             self.0.write_str(s)
